@@ -614,7 +614,10 @@ def check_register_interface(ctx, tag, asz, rsz, default, autoneg, plan):
     # ---- the stimulus space
     configured = sorted(b.regs) + ([0] if autoneg and 0 not in b.regs else [])
     free = [a for a in (1, 3, (1 << asz) - 1, (1 << asz) - 2) if a not in configured][:3]
-    addrs = sorted(set(configured + free))
+    # every address that differs from a configured one in exactly one bit: an address decoder that drops or ignores any
+    # single address bit (for instance the top one) makes such an alias select the register
+    near = [a ^ (1 << k) for a in configured for k in range(asz)]
+    addrs = sorted(set(configured + free + near))
 
     def envs():
         for w, a, c in itertools.product((0, 1), addrs, (0, 1)):
